@@ -10,15 +10,17 @@ from ..report import Context
 from ..util import returned_value, calls_in, is_self_attr, node_for, normaliser, parse_expr, path_text, reaching_events, returns_of
 
 LEVEL_TEXT = (
-    "Static analysis of mab.py / epsilon_greedy.py (no execution): reward has the normal form (ref - best)/ref exactly on "
-    "the branch best < ref and 0.0 otherwise, the reference is stored only on that branch, with `best`, after the reward was "
-    "computed; learn() increments count[action] before the step size is taken and updates Q[action] <- Q[action] + "
+    "Static analysis of mab.py / epsilon_greedy.py (no execution): get_reward and policy are read path by path "
+    "(per-path summaries: branch decisions, returned value and attribute stores, locals substituted forward and attribute "
+    "reads versioned across stores, so guard clauses, early returns and temporaries read alike): reward has the normal form "
+    "(ref - best)/ref - with ref the reference held at entry - exactly on the paths where best < ref and 0.0 otherwise, the "
+    "reference is stored only on those paths, once, with `best`; learn() increments count[action] before the step size is taken and updates Q[action] <- Q[action] + "
     "step*(reward - Q[action]) (rational normal form), step = 1/count[action] iff alpha == -1 else alpha; only index "
     "`action` of Q/actions_count is written; policy() returns int(x) with x in {argmax(Q), choice(arange(n_actions))}, greedy "
     "exactly on the negative edge of `u < eps` with u drawn from the agent's own generator in [0,1) - so eps = 0 is always "
     "greedy; no other randomness source. These decide the update rules for every reward sequence because they do not depend on values."
 )
-TECHNIQUE = "rational normal forms + CFG control dependence / ordering queries"
+TECHNIQUE = "per-path function summaries (path-sensitive forward substitution with attribute versioning) + rational normal forms + CFG ordering queries"
 
 ENV = "black_it.schedulers.rl.envs.mab:MABCalibrationEnv"
 AG = "black_it.schedulers.rl.agents.epsilon_greedy:MABEpsilonGreedy"
